@@ -34,6 +34,7 @@ import numpy as realnp
 
 from .cplkit import *  # noqa
 from .kern import jet_tangent
+from .cplkit import _b, _sampler_tau
 from symx.solver import explore, prove_zero, prove_rel
 from symx import harness as H
 
